@@ -115,6 +115,9 @@ func (e *c15Env) snapshot() (s c15Snap, err error) {
 			acc = fmt.Sprintf(" accessors: numDocs=%d chunkMode=%d version=%d crc=%08x fields@%d stored@%d docvalues@%d size=%d",
 				m.NumDocs(), m.ChunkMode(), m.Version(), m.CRC(), m.FieldsIndexOffset(), m.StoredIndexOffset(), m.DocValueOffset(), sg.Size())
 		}
+		if cs, err := sg.CollectionStats("no-such-field"); err == nil {
+			acc += fmt.Sprintf(" unknown-field-stats=%d/%d/%d", cs.TotalDocumentCount(), cs.DocumentCount(), cs.SumTotalTermFrequency())
+		}
 		s.obs = append(s.obs, o.String()+acc)
 		b, _, err := persist(sg)
 		if err != nil {
@@ -168,6 +171,24 @@ type c15Op struct {
 
 func c15Ops() []c15Op {
 	var ops []c15Op
+	// folding per-segment statistics the way a reader does: Merge into the stats object a segment
+	// handed out (for a field it lacks, and for one it has)
+	ops = append(ops, c15Op{"foldStats", func(e *c15Env) error {
+		for _, f := range []string{"no-such-field", "a"} {
+			acc, err := e.segs[0].CollectionStats(f)
+			if err != nil {
+				return err
+			}
+			for _, sg := range e.segs[1:] {
+				cs, err := sg.CollectionStats("a")
+				if err != nil {
+					return err
+				}
+				acc.Merge(cs)
+			}
+		}
+		return nil
+	}})
 	ops = append(ops, c15Op{"observe(twin)", func(e *c15Env) error { _, err := observe(e.segs[3]); return err }})
 	ops = append(ops, c15Op{"stored(twin,0)", func(e *c15Env) error {
 		return e.segs[3].VisitStoredFields(0, func(string, []byte) bool { return true })
